@@ -358,9 +358,14 @@ impl Directory for SimDir {
     }
     fn open_write(&self, path: &Path) -> Result<WritePtr, OpenWriteError> {
         let ino;
-        if is_lock(path) {
+        let lock = is_lock(path);
+        if lock {
             // a thread held here has not taken the lock yet
             self.gate(K::Create, path);
+            // an I/O error on a lock file strikes whether or not the file exists (nothing is created or removed)
+            if let Err(e) = self.op(K::Create, path, None) {
+                return Err(OpenWriteError::wrap_io_error(e, path.to_path_buf()));
+            }
         }
         {
             let mut st = self.st.lock().unwrap();
@@ -372,11 +377,13 @@ impl Directory for SimDir {
             ino = st.next_ino;
             st.inos.insert(path.to_path_buf(), ino);
         }
-        if let Err(e) = self.op(K::Create, path, None) {
-            let mut st = self.st.lock().unwrap();
-            st.files.remove(path);
-            st.inos.remove(path);
-            return Err(OpenWriteError::wrap_io_error(e, path.to_path_buf()));
+        if !lock {
+            if let Err(e) = self.op(K::Create, path, None) {
+                let mut st = self.st.lock().unwrap();
+                st.files.remove(path);
+                st.inos.remove(path);
+                return Err(OpenWriteError::wrap_io_error(e, path.to_path_buf()));
+            }
         }
         Ok(BufWriter::new(Box::new(SimWriter { dir: self.clone(), path: path.to_path_buf(), ino, data: Vec::new() })))
     }
